@@ -4,7 +4,10 @@
  * payload of a case: <helo|!helo|~> <sender> <rcpt,rcpt,...|-> <stream after DATA> <cut|-1>      ("!" in front: EHLO instead of HELO)
  *   the session sent is  [HELO helo CRLF] MAIL FROM:<sender> CRLF (RCPT TO:<rcpt> CRLF)* DATA CRLF stream , truncated to
  *   `cut` bytes when cut >= 0 (client disconnect).  A sixth payload field is appended to the answer: the length of the
- *   command part (everything before `stream`). */
+ *   command part (everything before `stream`).
+ * Raw sessions (protocol letter 'T', real-queue leg 't'): the payload is ONE field, the client's bytes as they are - any number of
+ *   transactions, RSET, repeated MAIL, refused RCPT, garbage, cut anywhere; the k-th run of the queue program ends as the k-th
+ *   entry of <qqscript> says.  Compared with the composed model Nq.SmtpC07.run (C08's command loop + C07's smtp_data/qmail.c). */
 #include "c07_common.h"
 #define read c07_read
 #define write c07_write
@@ -38,7 +41,7 @@ static void one(c07_case *c) {
   long cut = atol(c->pay[4]);
   size_t n = s.n; if (cut >= 0 && (size_t)cut < n) n = cut;
   c07_setup(c, s.p, n);
-  ssin.p = 0; ssin.n = sizeof ssinbuf; ssout.p = 0; seenmail = 0; databytes = 0; bytestooverflow = 0; timeout = 1200; flagbarf = 0; binqqargs[0] = 0;
+  ssin.p = 0; ssin.n = sizeof ssinbuf; ssout.p = 0; seenmail = 0; databytes = 0; bytestooverflow = 0; timeout = 1200; flagbarf = 0; binqqargs[0] = 0; rcptto.len = 0; mailfrom.len = 0;   /* a fresh process starts with empty strallocs */
   int code;
   h_exit_armed = 1;
   if (setjmp(h_jb) == 0) { smtpd_main(); code = -1; } else code = h_exitcode;
@@ -49,6 +52,27 @@ static void one(c07_case *c) {
   c07_finish(c, code);
   c->pay[5] = save; c->npay = np;
   free(s.p);
+}
+
+static void reset_daemon(void) {
+  ssin.p = 0; ssin.n = sizeof ssinbuf; ssout.p = 0; seenmail = 0; databytes = 0; bytestooverflow = 0; timeout = 1200; flagbarf = 0; binqqargs[0] = 0; rcptto.len = 0; mailfrom.len = 0;   /* a fresh process starts with empty strallocs */
+}
+static void one_raw(c07_case *c) {
+  static unsigned char tmp[1 << 21];
+  if (c->npay < 1) return;
+  size_t n = c07_unhex(c->pay[0], tmp);
+  c07_setup(c, tmp, n);
+  reset_daemon();
+  int code;
+  h_exit_armed = 1;
+  if (setjmp(h_jb) == 0) { smtpd_main(); code = -1; } else code = h_exitcode;
+  h_exit_armed = 0;
+  c->npay = 1;
+  c07_finish(c, code);
+}
+static void emit_raw(c07_case *c, const void *p, size_t n) {
+  c->pay[0] = c07_hexdup(p, n); c->npay = 1;
+  one_raw(c);
 }
 
 static char *emit_helohex;     /* when set: the first payload field as it is (hex, "!" in front for EHLO); consumed by the next emit() */
@@ -300,11 +324,185 @@ static void randoms(int nrandom, uint64_t seed) {
   }
 }
 
+/* ---------------------------------------------------------------- raw sessions (protocol letter 'T' / 't') */
+#define ADD(b, lit) hbuf_add(b, lit, sizeof(lit) - 1)
+static void t_str(hbuf *b, const char *s) { hbuf_add(b, s, strlen(s)); }
+static const char *T_BODY[] = { "Subject: a\r\n\r\none\r\n", "..dot\r\nReceived: x\r\n", "", "x\r\n\r\n\ry\r\r\n", "Received: by z\r\nDelivered-To: q\r\n\r\nlong line long line long line\r\n" };
+static void t_data(hbuf *b, int body) { ADD(b, "DATA\r\n"); t_str(b, T_BODY[body % C07_N(T_BODY)]); ADD(b, ".\r\n"); }
+/* k-th multi-run queue script */
+static char *t_script(const int *codes, int n) {
+  char *s = malloc(64 * n + 8); s[0] = 0;
+  for (int i = 0; i < n; i++) { char e[64];
+    if (codes[i] == -9) snprintf(e, sizeof e, "%s0,9,-", i ? ";" : "");
+    else if (codes[i] == -82) snprintf(e, sizeof e, "%s82,0,44637573746f6d", i ? ";" : "");       /* "Dcustom" */
+    else snprintf(e, sizeof e, "%s%d,0,-", i ? ";" : "", codes[i]);
+    strcat(s, e); }
+  return s;
+}
+
+static void enumerate_t(void) {
+  c07_case c;
+  static const int outc[] = { 0, 53, 31, -9, -82, 111 };
+  /* three transactions on one connection, every combination of outcomes from {ok, temp, perm, crash} for the three queue runs */
+  for (int a = 0; a < 4; a++) for (int b = 0; b < 4; b++) for (int d = 0; d < 4; d++) {
+    if (!c07_mine()) continue;
+    hbuf s = {0};
+    ADD(&s, "HELO first.example\r\nMAIL FROM:<one@s.example>\r\nRCPT TO:<u1@ok.example>\r\nRCPT TO:<no@other.example>\r\nRCPT TO:<u2@a.sub.example>\r\n"); t_data(&s, a);
+    ADD(&s, "MAIL FROM:<two@s.example>\r\nRCPT TO:<v1@OK.example>\r\n"); t_data(&s, b + 1);
+    ADD(&s, "RCPT TO:<late@ok.example>\r\nDATA\r\nMAIL FROM:<>\r\nrcpt to: w1@localhost\r\nEHLO second.example\r\nRCPT TO:<lost@ok.example>\r\nmail from:<three@s.example> SIZE=5\r\nRCPT TO:<w2@ok.example>\r\n"); t_data(&s, d + 2);
+    ADD(&s, "QUIT\r\n");
+    int codes[3] = { outc[a], outc[b], outc[d] };
+    c07_defaults(&c, 'T', a * 16 + b * 4 + d); free(c.qq); c.qq = t_script(codes, 3); c.chunk = (a + b + d) % 4 == 3 ? 1 : 0;
+    emit_raw(&c, s.p, s.n); c07_free(&c); free(s.p);
+  }
+  /* shapes: RSET, repeated MAIL, refused and unparsable RCPT, DATA without RCPT / MAIL, garbage, bare-LF line ends, NUL in a line,
+     pipelined garbage behind the terminator, route and quoted addresses, blanks, RELAYCLIENT, databytes, hop limit in the second message */
+  static const char *shape[] = {
+    "MAIL FROM:<a@s>\r\nRCPT TO:<u@ok.example>\r\nRSET\r\nDATA\r\nMAIL FROM:<b@s>\r\nRCPT TO:<v@ok.example>\r\nDATA\r\nx\r\n.\r\nQUIT\r\n",
+    "MAIL FROM:<a@s>\r\nRCPT TO:<u@ok.example>\r\nMAIL FROM:<b@s>\r\nDATA\r\nRCPT TO:<v@ok.example>\r\nRCPT TO:<w@ok.example>\r\nMAIL FROM:<" "c@s>\r\nRCPT TO:<x@ok.example>\r\nDATA\r\nx\r\n.\r\nQUIT\r\n",
+    "MAIL FROM:<a@s>\r\nRCPT TO:<u@other.example>\r\nRCPT TO:<>\r\nRCPT TO:<plain>\r\nDATA\r\nx\r\n.\r\nRCPT TO:<v@ok.example>\r\nDATA\r\nQUIT\r\n",
+    "RCPT TO:<u@ok.example>\r\nDATA\r\nMAIL FROM:<a@s>\r\nDATA\r\nRCPT TO:<u@ok.example>\r\nDATA\r\n.\r\nDATA\r\nRCPT TO:<u@ok.example>\r\nQUIT\r\n",
+    "mail FROM:<a@s>\nrcpt to:<u@ok.example>\ndata\nx\r\n.\r\nNOOP\nHELP\nVRFY x\nFOO\n\nmail from: b@s \nRcPt To:   v@ok.example\nDaTa  now\ny\r\n.\r\nquit\n",
+    "MAIL FROM:<a@s>\r\nRCPT TO:<u@ok.example>\r\nDATA\r\nx\r\n.\r\n250 ok 0 qp 1\r\nok\r\nMAIL\r\nRCPT\r\nDATA\r\nGARBAGE GARBAGE\r\nMAIL FROM:<b@s>\r\nRCPT TO:<v@ok.example>\r\nDATA\r\ny\r\n.\r\nQUIT\r\n",
+    "MAIL FROM:<@r1,@r2:a@s>\r\nRCPT TO:<@x:u@ok.example>\r\nRCPT TO:<\"q u\"@ok.example>\r\nRCPT TO:<q\\@r@ok.example>\r\nRCPT TO: bare@ok.example trailing\r\nDATA\r\nx\r\n.\r\nQUIT\r\n",
+    "HELO a\r\nMAIL FROM:<a@s>\r\nRCPT TO:<u@ok.example>\r\nHELO b\r\nDATA\r\nMAIL FROM:<a@s>\r\nRCPT TO:<u@ok.example>\r\nEHLO c d\r\nMAIL FROM:<b@s>\r\nRCPT TO:<v@ok.example>\r\nDATA\r\nx\r\n.\r\nHELO e\r\nMAIL FROM:<c@s>\r\nRCPT TO:<w@ok.example>\r\nDATA\r\ny\r\n.\r\nQUIT\r\n",
+    "MAIL FROM:<a@s>\r\nRCPT TO:<u@ok.example>\r\nDATA\r\nx\r\n.\r\nMAIL FROM:<b@s>\r\nRCPT TO:<v@ok.example>\r\nDATA\r\ny\nz\r\n.\r\nQUIT\r\n",
+    "MAIL FROM:<a@s>\r\nRCPT TO:<u@ok.example>\r\nDATA\r\nx\r\n.\r\nMAIL FROM:<b@s>\r\nRCPT TO:<v@ok.example>\r\nDATA\r\n0123456789012345678901234567890123456789\r\n.\r\nMAIL FROM:<c@s>\r\nRCPT TO:<w@ok.example>\r\nDATA\r\nz\r\n.\r\nQUIT\r\n",
+    "MAIL FROM:<a@s>\r\nRCPT TO:<u@ok.example>\r\nDATA\r\nx\r\n.\r\nQUIT\r\nMAIL FROM:<b@s>\r\nRCPT TO:<v@ok.example>\r\nDATA\r\ny\r\n.\r\n",
+  };
+  for (int k = 0; k < C07_N(shape); k++) for (int v = 0; v < 6; v++) {
+    if (!c07_mine()) continue;
+    int codes[4] = { outc[v], outc[(v + 1) % 6], outc[(v + 2) % 6], 0 };
+    c07_defaults(&c, 'T', k + v); free(c.qq); c.qq = t_script(codes, v == 5 ? 1 : 4);
+    if (v == 1) { free(c.env[5]); c.env[5] = c07_hexs("@relay.example"); }
+    if (v == 2) { free(c.env[5]); c.env[5] = strdup("-"); }
+    if (v == 3) c.databytes = 20;
+    if (v == 4) c.wfault = k % 5;
+    c.chunk = (int[]){ 0, 1, 3, 100 }[(k + v) % 4];
+    emit_raw(&c, shape[k], strlen(shape[k])); c07_free(&c);
+  }
+  /* a NUL inside command lines */
+  { if (c07_mine()) { static const char z[] = "MAIL FROM:<a@s>\0junk\r\nRCPT TO:<u@ok.example\0>\r\nRS\0ET\r\nDATA\r\nx\r\n.\r\nQUIT\r\n";
+      c07_defaults(&c, 'T', 3); emit_raw(&c, z, sizeof z - 1); c07_free(&c); } }
+  /* the hop limit and the size limit in the SECOND transaction, the first and third fine */
+  for (int v = 0; v < 2; v++) {
+    if (!c07_mine()) continue;
+    hbuf s = {0};
+    ADD(&s, "MAIL FROM:<a@s>\r\nRCPT TO:<u@ok.example>\r\n"); t_data(&s, 0);
+    ADD(&s, "MAIL FROM:<b@s>\r\nRCPT TO:<v@ok.example>\r\nDATA\r\n");
+    for (int i = 0; i < (v ? 3 : 100); i++) ADD(&s, "Received: by hop\r\n");
+    ADD(&s, "\r\nbody body body body body body body body\r\n.\r\n");
+    ADD(&s, "MAIL FROM:<c@s>\r\nRCPT TO:<w@ok.example>\r\n"); t_data(&s, 2); ADD(&s, "QUIT\r\n");
+    c07_defaults(&c, 'T', v); if (v) c.databytes = 60;
+    emit_raw(&c, s.p, s.n); c07_free(&c); free(s.p);
+  }
+  /* EVERY cut point of a two-transaction session (second one after RSET + repeated MAIL), queue outcomes ok / ok and perm / ok */
+  { static const char two[] = "HELO h\r\nMAIL FROM:<a@s>\r\nRCPT TO:<u@ok.example>\r\nDATA\r\nA: b\r\n\r\n..\r\n.\r\nRSET\r\nMAIL FROM:<x@s>\r\nMAIL FROM:<b@s>\r\nRCPT TO:<no@other.example>\r\nRCPT TO:<v@ok.example>\r\nDATA\r\ny\r\n.\r\nQUIT\r\n";
+    for (int v = 0; v < 2; v++) for (size_t k = 0; k <= sizeof two - 1; k++) {
+      if (!c07_mine()) continue;
+      int codes[2] = { v ? 31 : 0, 0 };
+      c07_defaults(&c, 'T', (unsigned)k); free(c.qq); c.qq = t_script(codes, 2); c.chunk = (int)(k % 3);
+      emit_raw(&c, two, k); c07_free(&c);
+    } }
+  /* address lengths around the 900 limit inside a later transaction (MAIL and RCPT), with and without RELAYCLIENT */
+  for (int len = 896; len <= 902; len++) for (int who = 0; who < 2; who++) for (int rc = 0; rc < 2; rc++) {
+    if (!c07_mine()) continue;
+    char *a = fill(len, 'q', "@ok.example"); hbuf s = {0};
+    ADD(&s, "MAIL FROM:<a@s>\r\nRCPT TO:<u@ok.example>\r\n"); t_data(&s, 0);
+    if (who == 0) { ADD(&s, "MAIL FROM:<"); t_str(&s, a); ADD(&s, ">\r\nRCPT TO:<v@ok.example>\r\n"); }
+    else { ADD(&s, "MAIL FROM:<b@s>\r\nRCPT TO:<first@ok.example>\r\nRCPT TO:<"); t_str(&s, a); ADD(&s, ">\r\nRCPT TO:<last@ok.example>\r\n"); }
+    t_data(&s, 1); ADD(&s, "QUIT\r\n");
+    c07_defaults(&c, 'T', len); if (rc) { free(c.env[5]); c.env[5] = c07_hexs("@r"); }
+    emit_raw(&c, s.p, s.n); c07_free(&c); free(s.p); free(a);
+  }
+  /* the same against the real qmail-queue */
+  for (int k = 0; k < C07_N(shape); k++) {
+    if (!c07_mine()) continue;
+    c07_defaults(&c, 't', k); if (k % 3 == 1) c.databytes = 20; emit_raw(&c, shape[k], strlen(shape[k])); c07_free(&c);
+  }
+}
+
+static void t_addr(hbuf *b) {
+  static const char *loc[] = { "u", "user.name", "a+b", "\"q s\"", "x\\@y", "" };
+  static const char *dom[] = { "@ok.example", "@a.sub.example", "@OK.Example", "@other.example", "@localhost", "", "@sub.example", "@xok.example", "@ok.example.", "@.sub.example" };
+  uint32_t k = h_below(20);
+  if (k == 0) { size_t n = 880 + h_below(30); for (size_t i = 0; i < n; i++) ADD(b, "l"); t_str(b, "@ok.example"); return; }
+  if (k == 1) t_str(b, "@route.example:");
+  t_str(b, loc[h_below(6)]); if (h_below(3) == 0) { char ch = (char)('a' + h_below(26)); hbuf_add(b, &ch, 1); }
+  t_str(b, dom[h_below(10)]);
+}
+static void t_line_end(hbuf *b) { if (h_below(12) == 0) ADD(b, "\n"); else ADD(b, "\r\n"); }
+static void t_verb(hbuf *b, const char *v) { for (; *v; v++) { char ch = h_below(4) == 0 ? (char)tolower((unsigned char)*v) : *v; hbuf_add(b, &ch, 1); } }
+
+static void randoms_t(int nrandom, uint64_t seed) {
+  c07_case c;
+  for (int r = 0; r < nrandom; r++) {
+    if (!c07_mine()) continue;
+    h_seed(seed * 1000003ull + r + 777001);
+    c07_defaults(&c, 'T', h_below(1000));
+    if (h_below(4) == 0) c.databytes = h_below(60);
+    if (h_below(4) == 0) { free(c.env[5]); c.env[5] = h_below(2) ? strdup("-") : c07_hexs("@relay.example"); }
+    static const int codes[] = { 0, 0, 0, 0, 0, 0, 11, 31, 51, 53, 54, 81, 91, 115, 120, 1, 40, 41, 100, 255, -9, -82 };
+    int cs[5]; int nc = 1 + h_below(5); for (int i = 0; i < nc; i++) cs[i] = codes[h_below(C07_N(codes))];
+    free(c.qq); c.qq = t_script(cs, nc);
+    hbuf s = {0};
+    int ncmd = 2 + h_below(24);
+    int fresh = 0;    /* 0 nothing, 1 after MAIL, 2 after RCPT: bias towards complete transactions */
+    if (h_below(5) < 2) {   /* two to four complete transactions, a stray command between them now and then */
+      int nt = 2 + h_below(3);
+      if (h_below(3) == 0) { t_verb(&s, h_below(2) ? "HELO" : "EHLO"); ADD(&s, " "); t_str(&s, (const char *[]){ "client.example", "h.example", "a b" }[h_below(3)]); t_line_end(&s); }
+      for (int k = 0; k < nt; k++) {
+        t_verb(&s, "MAIL"); ADD(&s, " "); t_verb(&s, "FROM:"); ADD(&s, "<"); t_addr(&s); ADD(&s, ">"); t_line_end(&s);
+        int nr = 1 + h_below(3);
+        for (int j = 0; j < nr; j++) { t_verb(&s, "RCPT"); ADD(&s, " "); t_verb(&s, "TO:"); ADD(&s, "<"); if (h_below(4)) { char u[24]; snprintf(u, sizeof u, "u%u@ok.example", h_below(100)); t_str(&s, u); } else t_addr(&s); ADD(&s, ">"); t_line_end(&s); }
+        if (h_below(6) == 0) { t_verb(&s, (const char *[]){ "NOOP", "RSET", "HELO x", "MAIL FROM:<again@s.example>", "VRFY y", "DATA" }[h_below(6)]); t_line_end(&s); }
+        t_verb(&s, "DATA"); t_line_end(&s);
+        t_str(&s, T_BODY[h_below(C07_N(T_BODY))]); if (h_below(10) == 0) for (int j = 0; j < 100; j++) ADD(&s, "Received: x\r\n");
+        size_t bn = h_below(12) == 0 ? h_below(2500) : h_below(50); for (size_t j = 0; j < bn; j++) { char ch = (char)('a' + h_below(26)); hbuf_add(&s, &ch, 1); if (h_below(30) == 0) ADD(&s, "\r\n"); }
+        ADD(&s, "\r\n.\r\n");
+        if (h_below(8) == 0) { t_verb(&s, (const char *[]){ "NOOP", "RSET", "RCPT TO:<late@ok.example>", "DATA", "250 ok 1 qp 2" }[h_below(5)]); t_line_end(&s); }
+      }
+      ncmd = h_below(3);
+    }
+    for (int i = 0; i < ncmd; i++) {
+      uint32_t k = h_below(100);
+      if (fresh == 0 && k < 45) k = 0; else if (fresh == 1 && k < 55) k = 10; else if (fresh == 2 && k < 40) k = 20;
+      if (k < 10) { t_verb(&s, "MAIL"); ADD(&s, " "); t_verb(&s, "FROM:"); if (h_below(8)) { ADD(&s, "<"); t_addr(&s); ADD(&s, ">"); } else { ADD(&s, " "); t_addr(&s); } if (h_below(6) == 0) ADD(&s, " BODY=8BITMIME"); t_line_end(&s); fresh = 1; }
+      else if (k < 20) { t_verb(&s, "RCPT"); ADD(&s, " "); t_verb(&s, "TO:"); if (h_below(8)) { ADD(&s, "<"); t_addr(&s); ADD(&s, ">"); } else t_addr(&s); t_line_end(&s); if (fresh) fresh = 2; }
+      else if (k < 45) { t_verb(&s, "DATA"); t_line_end(&s);
+        uint32_t shape = h_below(14);
+        if (shape < 10) { t_str(&s, T_BODY[h_below(C07_N(T_BODY))]); size_t bn = h_below(8) == 0 ? h_below(2500) : h_below(40); for (size_t j = 0; j < bn; j++) { char ch = (char)('a' + h_below(26)); hbuf_add(&s, &ch, 1); if (h_below(30) == 0) ADD(&s, "\r\n"); } ADD(&s, "\r\n.\r\n"); }
+        else if (shape == 10) { for (int j = 0; j < 100; j++) ADD(&s, "Received: x\r\n"); ADD(&s, "\r\n.\r\n"); }
+        else if (shape == 11) ADD(&s, "a\nb\r\n.\r\n");
+        else if (shape == 12) ADD(&s, ".\r\n");
+        else ADD(&s, "unterminated\r\n");
+        fresh = 0; }
+      else if (k < 52) { t_verb(&s, "RSET"); t_line_end(&s); fresh = 0; }
+      else if (k < 58) { t_verb(&s, h_below(2) ? "HELO" : "EHLO"); ADD(&s, " "); t_str(&s, (const char *[]){ "client.example", "h.example", "a b", "" }[h_below(4)]); t_line_end(&s); fresh = 0; }
+      else if (k < 64) { t_verb(&s, (const char *[]){ "NOOP", "HELP", "VRFY x", "XYZZY", "", "250 ok 1 qp 2" }[h_below(6)]); t_line_end(&s); }
+      else if (k < 67) { t_verb(&s, "QUIT"); t_line_end(&s); }
+      else { static const char *junk[] = { "MAIL", "RCPT TO:", "DATA x", "mail from:<>", ".", "RCPT TO:<@>" }; t_str(&s, junk[h_below(6)]); t_line_end(&s); }
+    }
+    if (h_below(3)) ADD(&s, "QUIT\r\n");
+    /* byte-level damage */
+    if (h_below(6) == 0 && s.n) { static const unsigned char alpha[] = "\r\n.<>:@ \0Dd\\\""; for (int j = h_below(3); j >= 0; j--) s.p[h_below((uint32_t)s.n)] = alpha[h_below(sizeof alpha - 1)]; }
+    size_t n = s.n;
+    if (h_below(5) == 0) n = h_below((uint32_t)s.n + 1);
+    if (h_below(25) == 0) c.wfault = h_below(8);
+    c.chunk = (int[]){ 0, 0, 1, 3, 100 }[h_below(5)];
+    if (h_below(25) == 0) c.proto = 't';
+    emit_raw(&c, s.p, n);
+    c07_free(&c); free(s.p);
+  }
+}
+
 int main(int argc, char **argv) {
   c07_init();
   if (argc > 1 && !strcmp(argv[1], "-")) {
     static char line[1 << 23];
-    while (fgets(line, sizeof line, stdin)) { c07_case c; if (c07_parse(line, &c) && toupper((unsigned char)c.proto) == 'S' && c.npay >= 5) { c.npay = 5; one(&c); } }
+    while (fgets(line, sizeof line, stdin)) { c07_case c; if (!c07_parse(line, &c)) continue;
+      if (toupper((unsigned char)c.proto) == 'S' && c.npay >= 5) { c.npay = 5; one(&c); }
+      else if (toupper((unsigned char)c.proto) == 'T' && c.npay >= 1) one_raw(&c); }
   } else {
     int nrandom = h_argi(argc, argv, 1, 1000); uint64_t seed = (uint64_t)h_argi(argc, argv, 2, 1);
     c07_shard = h_argi(argc, argv, 3, 0); c07_nshards = h_argi(argc, argv, 4, 1); c07_thorough = nrandom > 50000;
@@ -312,6 +510,8 @@ int main(int argc, char **argv) {
     enumerate2();
     enumerate_real();
     randoms(nrandom, seed);
+    enumerate_t();
+    randoms_t(nrandom / 3, seed);
   }
   c07_fini();
   return 0;
